@@ -5,7 +5,7 @@
     3. graph_to_rsmi: without hydrogen atoms in the centre the explicit_hydrogen flag changes nothing; the strict and the
        lenient model of the preserve path agree when the keys are there. *)
 From Coq Require Import String List NArith ZArith Bool Lia.
-From SK Require Import lib.Tok lib.LGraph lib.StrJoin model.C10_Model model.C10_Rxn proof.C10_Proof proof.C10_Views proof.C10_Build
+From SK Require Import lib.Tok lib.LGraph lib.StrJoin model.C10_Model model.C10_Text model.C10_Rxn proof.C10_Text proof.C10_Proof proof.C10_Views proof.C10_Build
   proof.C10_Copy proof.C10_GmlRead proof.C10_GmlWrite proof.C10_Centre proof.C10_Routes proof.C10_Routes2 proof.C10_Hydrogen
   proof.C10_HRound proof.C10_GmlEH proof.C10_Smart proof.C10_MolOk proof.C10_Relabel proof.C10_Reindex proof.C10_ReindexEH.
 Import ListNotations.
@@ -83,6 +83,21 @@ Proof.
 Qed.
 
 
+
+
+(** ** ... and through the TEXT: the rule text written for the reaction, read by GMLToNX, gives the centre *)
+Theorem three_routes_text (r p : gr) (eo : list (N * N)) (eh : bool) (name : str) :
+  mol_ok r = true -> mol_ok p = true -> balanced r p = true -> eo_covers r p eo = true -> ~ In 10%N name ->
+  let c := get_rc (its_construct r p eo) in
+  let via_text := fun rec : grec => rec_okb rec = true ->
+    exists X, option_map snd (text_to_nx (render name rec)) = Some X /\ reads_centre c X in
+  via_text (smart_to_gml r p eo true false eh) /\
+  via_text (its_to_gml (rsmi_to_its r p eo false false) true false eh) /\
+  via_text (its_to_gml (rsmi_to_its r p eo true false) true false eh).
+Proof.
+  intros Hr Hp Hb He Hn c via_text. destruct (three_routes r p eo eh Hr Hp Hb He) as (A & B & C). fold c in A, B, C.
+  unfold via_text. repeat split; intros Hk; eexists; (split; [rewrite (text_to_nx_render name _ Hn Hk); reflexivity|]); assumption.
+Qed.
 
 (** ** ... starting from what the code reads from RDKit: two molecule records in the contract [rdmol_ok] *)
 Theorem three_routes_from_records (mr mp : rmol) (eo : list (N * N)) (eh : bool) :
